@@ -1160,6 +1160,61 @@ theorem C09_emdpath_parent_new (over : Bool) (opt : TreeOpt) (hopt : opt ≠ .be
       bind, Except.bind, pure, Except.pure, Bool.not_true, Bool.false_and, Bool.false_eq_true, if_false, Option.isNone_some,
       Option.isNone_none, Bool.and_false, Bool.and_true, beq_self_eq_true, if_true]
 
+theorem isPrefixOf'_none_of_not_prefix : ∀ (p t : List String), ¬ p <+: t → isPrefixOf' p t = none
+  | [], t, h => absurd (List.nil_prefix) h
+  | _ :: _, [], _ => rfl
+  | a :: p, b :: t, h => by
+    simp only [isPrefixOf']
+    split
+    · next e =>
+      subst e
+      exact isPrefixOf'_none_of_not_prefix p t (fun hp => h (by simpa using hp))
+    · rfl
+
+/-- C09, an emdpath that names a node UNRELATED to the node being saved (both in the file; the emdpath node is not the
+    node itself, has no child called like it, and does not lie below it — e.g. a SIBLING, however similar its name: `scan`
+    under the emdpath of `scan2`): the save is refused and, a failing save returning no file, nothing is written -/
+theorem C09_emdpath_unrelated_refused (over : Bool) (opt : TreeOpt) (f : Obj) (F Rt S T D : Tree) (body' : List (String × Obj))
+    (n0 : String) (p0 : List String) (tp : List String) (b : String)
+    (hF : F.rootedWF CT DT = true) (hR : Rt.rootedWF CT DT = true) (hname : Rt.name = F.name)
+    (hf : alookup F.name f.kids = some (encode F)) (hroot : (rootGroups f).contains F.name = true)
+    (hmdname : "metadatabundle" ∉ names F.kids)
+    (hmd : mdBody over F.info.body (mdEntries Rt.info) = .ok body')
+    (hS : F.at (n0 :: p0) = some S) (hT : F.at tp = some T) (hD : Rt.at (n0 :: p0) = some D)
+    (hne : (n0 :: p0) ≠ tp) (hnp : ¬ (n0 :: p0) <+: tp)
+    (hb : (n0 :: p0).getLast? = some b) (hnot : b ∉ akeys T.info.body ∧ b ∉ names T.kids)
+    (htp : tp ≠ []) :
+    appendInto DT f Rt (n0 :: p0) over opt (some (joinPath (F.name :: tp)))
+      = .error (.error "target not downstream of source") := by
+  simp only [Tree.rootedWF, Bool.and_eq_true, beq_iff_eq] at hF hR
+  obtain ⟨hF1w, hrm⟩ := rootMd_encode over F Rt.info body' hF.1.1 hmdname hmd
+  have hS1 : (withBody F body').at (n0 :: p0) = some S := by rw [withBody_at]; exact hS
+  obtain ⟨t0, ts, rfl⟩ : ∃ t0 ts, tp = t0 :: ts := by
+    cases tp with
+    | nil => exact absurd rfl htp
+    | cons a l => exact ⟨a, l, rfl⟩
+  have hT1 : (withBody F body').at (t0 :: ts) = some T := by rw [withBody_at]; exact hT
+  have hval0 := validate_inside (ct := CT) (dt := DT) _ F T hF.1.1 hT
+  have hvalS := validate_inside (ct := CT) (dt := DT) (n0 :: p0) (withBody F body') S hF1w hS1
+  have hparse := parse_path F.name (t0 :: ts) (by
+    intro n hn
+    cases hn with
+    | head => exact infoWF_validName (Tree.wf_info hF.1.1)
+    | tail _ hn' => exact path_names_valid _ F T hF.1.1 hT n hn')
+  have hneb : ((n0 :: p0) == (t0 :: ts)) = false := beq_false_of_ne hne
+  have hat := C01_node_at _ (withBody F body') T hF1w hT1
+  have hkeys : (akeys (encode T).kids).contains b = false := by
+    cases T with
+    | mk i k =>
+      simp only [Tree.kids_mk, Tree.info_mk] at hnot
+      simp only [encode, Obj.kids, akeys_append, akeys_encodeKids, List.contains_eq_mem, List.mem_append, decide_eq_false_iff_not,
+        not_or]
+      exact hnot
+  have hpre := isPrefixOf'_none_of_not_prefix (n0 :: p0) (t0 :: ts) hnp
+  simp only [appendInto, appendCore, hname, hroot, hD, hf, hrm, hparse, hval0, hvalS, hneb, hb, hat, hkeys, hpre,
+    List.isEmpty_cons, bind, Except.bind, pure, Except.pure, Bool.not_true, Bool.false_and, Bool.false_eq_true, if_false,
+    Option.isNone_some, Bool.and_false, throw, throwThe, MonadExceptOf.throw]
+
 /-- what "exactly there, and nothing else" means for all three targeted theorems: after replacing the subtree at `p`,
     the new subtree is what is read at `p` (and below), and the content of every node whose path does not pass through
     `p` is what it was -/
